@@ -1800,10 +1800,10 @@ int main(int argc, char** argv) {
   }
 
   // ---- reducers ----------------------------------------------------------------
-  en.push_back(red_case<AccSpec<int, 0>>(5));
-  en.push_back(red_case<AccSpec<unsigned, 0>>(14));
-  en.push_back(red_case<AccSpec<float, 0>>(14));
-  en.push_back(red_case<AccSpec<double, 0>>(14));
+  en.push_back(red_case<AccSpec<int, 0>>(8));
+  en.push_back(red_case<AccSpec<unsigned, 0>>(25));
+  en.push_back(red_case<AccSpec<float, 0>>(25));
+  en.push_back(red_case<AccSpec<double, 0>>(25));
   en.push_back(red_case<AccSpec<int, 1>>(1));
   en.push_back(red_case<AccSpec<unsigned, 1>>(3));
   en.push_back(red_case<AccSpec<float, 1>>(3));
